@@ -314,6 +314,7 @@ class Fn:
         self.blocks = {}
         self.text = ""
         self.promoted = None
+        self.const_value = None
 
     def __repr__(self):
         return "<Fn %s>" % self.name
@@ -457,20 +458,29 @@ def parse_mir(text, only=None):
                     fns[name] = e
             i = j + 1
             continue
-        m = re.match(r"^const (.*)::promoted\[(\d+)\]: (.*) = \{$", line)
-        if m:
+        m = re.match(r"^const (.*): ([^=]*?) = \{$", line)
+        if m and not line.startswith("const _"):
             j = i + 1
             while j < n and lines[j] != "}":
                 j += 1
-            name = "%s::promoted[%s]" % (m.group(1), m.group(2))
+            name = "const " + m.group(1)
             if only is None or only(m.group(1)):
                 try:
-                    f = parse_fn(name, name + "() -> " + m.group(3), lines[i + 1:j])
+                    f = parse_fn(name, name + "() -> " + m.group(2), lines[i + 1:j])
                     f.text = "\n".join(lines[i:j + 1])
                     fns[name] = f
                 except ParseError as e:
                     fns[name] = e
             i = j + 1
+            continue
+        m = re.match(r"^const (.*): ([^=]*?) = const (.*);$", line)
+        if m:
+            f = Fn("const " + m.group(1), line)
+            f.ret = m.group(2)
+            f.const_value = m.group(3)
+            f.text = line
+            fns[f.name] = f
+            i += 1
             continue
         i += 1
     return fns
